@@ -11,6 +11,7 @@
 -/
 import BibVerif.Lemmas.Doc
 import BibVerif.Lemmas.NoRaise
+import BibVerif.Lemmas.Relex
 namespace Bib.C02
 open Bib
 
@@ -29,6 +30,19 @@ re-lexing lemma of C05; the correspondence run exercises it on generated documen
 theorem split_correct_chars (d : Doc) (h : d.WF P) (s : Str) (hl : lex P s = d.toks) :
     split P s = .ok (d.expected P (-1)) := by
   unfold split; rw [hl]; exact split_correct P d h
+
+/-- **C02 (text level).** Every canonical derivation is realisable: it is the lexing of its own
+flattening (`relex`), so for the text `s` it spells (after the newline `Splitter` prepends) `split`
+returns the expected blocks.  `Canon` = what the lexer produces (`lex_canonical`): text chunks
+contain no unescaped delimiter and no block start, `@type` marks are `@\w*[ \t]*` before `{`. -/
+theorem split_correct_text (hP : WordOK2 P) (d : Doc) (h : d.WF P) (hc : Canon P false d.toks)
+    (s : Str) (hs : '\n' :: s = flatten d.toks) : split P s = .ok (d.expected P (-1)) := by
+  unfold split lex
+  rw [hs, relex P hP hc]
+  exact split_correct P d h
+
+/-- … and conversely every text lexes to a canonical token list. -/
+theorem lex_is_canonical (s : Str) : Canon P false (lex P s) := lex_canonical P false _
 
 /-- an entry whose field keys are pairwise distinct is expected as a plain entry -/
 theorem expected_entry_of_distinct (line : Int) (lit : Str) (key : List Tok) (fields : List FieldSrc)
